@@ -42,6 +42,61 @@ R = {
     "C18-seed2": ("C18", "C18 quick (sampling_quick residue check)", "at once", ""),
 }
 
+# round 2 (second building session): three changes per property, names <PID>-seed3..5
+R.update({
+    "C01-seed3": ("C01", "C01 quick (c01_realrun); also C02 quick (realrun)", "after strengthening", "`yield from` delegation is invisible to model frames that carry ONE opcode: the recorded real-run harnesses (real code objects, real f_lasti) were added"),
+    "C01-seed4": ("C01", "C01 quick (c01_tuples); also C07 quick (types_mix9)", "after strengthening", "needs None next to tuples of one element type and several lengths, over the union limit: three-call tuple histories added"),
+    "C01-seed5": ("C01", "C01 quick (c01_tuples)", "after strengthening", "value-keyed lru_cache: CrossHair skips functools.lru_cache, so the engine could not see it; the real cache is now kept under the engine, every shard runs in a fresh process, bool/int tuples added"),
+    "C02-seed3": ("C02", "C02 quick (attribution; realrun with the escaping recursive closure)", "at once", ""),
+    "C02-seed4": ("C02", "C02 quick (abandon); the state-injecting step harness abstains (representation guard)", "after strengthening", "id(frame)-keyed table: needs a dead frame and a new frame at its address (abandon harness with an aliasing allocator)"),
+    "C02-seed5": ("C02", "C02 quick (realrun: all_kinds / star_then_kwonly)", "after strengthening", "needs *args together with keyword-only parameters on real bytecode; patch re-ported onto the hook-freedom fixes"),
+    "C03-seed3": ("C03", "C03 quick (hookfree: first argument of an unresolvable function, side-effecting descriptor)", "at once", "hookfree was built in this session before the change was seen; patch re-ported"),
+    "C03-seed4": ("C03", "C03 quick (context)", "at once", ""),
+    "C03-seed5": ("C03", "C03 quick (hookfree: value nested two levels deep in the same container kind)", "after strengthening", "`obj in parents` compares containers with ==, which reaches the leaf's __eq__ only for same-kind same-length nestings; patch re-ported"),
+    "C04-seed3": ("C04", "C04 quick (sound_nestedx_2)", "at once", ""),
+    "C04-seed4": ("C04", "C04 quick (sound_eq_2)", "after strengthening", "value-keyed lru_cache on tuples: lru_cache shim + the eq grammar (1 == True == 1.0)"),
+    "C04-seed5": ("C04", "C04 quick (sound_small_2)", "at once", ""),
+    "C05-seed3": ("C05", "C05 quick (tight_eq_2)", "after strengthening", "as C04-seed4"),
+    "C05-seed4": ("C05", "C05 quick (tight_nested2_2)", "at once", ""),
+    "C05-seed5": ("C05", "C05 quick (tight_small_2)", "after strengthening", "oracle: a lone TypedDict alternative is now judged on EVERY observed dict at the position, the empty dict included"),
+    "C06-seed3": ("C06", "C06 quick (tdlimit_nestedx_2)", "at once", ""),
+    "C06-seed4": ("C06", "C06 quick (tdlimit_nested2_2)", "at once", ""),
+    "C06-seed5": ("C06", "C06 quick (c06_two_funcs)", "at once", ""),
+    "C07-seed3": ("C07", "C07 quick (types_mix9)", "after strengthening", "needs a member that itself contains a union, placed before an empty container of another kind: second alphabet + member-order bit"),
+    "C07-seed4": ("C07", "C07 quick (types_mix9)", "after strengthening", "needs DefaultDict next to Dict with the DefaultDict first"),
+    "C07-seed5": ("C07", "C07 quick (types_mix9)", "after strengthening", "needs Tuple[int] and Tuple[int, int] together in the quick alphabet"),
+    "C08-seed3": ("C08", "C08 quick (rt_trace)", "at once", ""),
+    "C08-seed4": ("C08", "C08 quick (rt_types_enc1)", "at once", ""),
+    "C08-seed5": ("C08", "C08 quick (rt_types_enc1)", "at once", ""),
+    "C09-seed3": ("C09", "C09 quick (E2 Q3)", "after strengthening", "SELECT DISTINCT was outside the SQL front end (the check answered exit 2); it is now read as GROUP BY the selected columns"),
+    "C09-seed4": ("C09", "C09 quick (atomic)", "at once", ""),
+    "C09-seed5": ("C09", "not reported as a violation: C09 quick answers exit 2 (store set-up executes `PRAGMA journal_mode = MEMORY`, outside the modelled statements)", "outside the claim", "needs SIGKILL of a writer inside a >2 MB transaction: crash points inside SQLite are outside this family; the statement audit at least refuses to say 'holds'"),
+    "C10-seed3": ("C10", "C10 quick (stale_full3)", "after strengthening", "needs a removed module whose name is a textual prefix of the live module's: kind added"),
+    "C10-seed4": ("C10", "C10 quick (stale_full3)", "at once", ""),
+    "C10-seed5": ("C10", "C10 quick (stale_full3)", "at once", ""),
+    "C11-seed3": ("C11", "C11 quick (tv_quick)", "at once", ""),
+    "C11-seed4": ("C11", "C11 quick (collide3q)", "at once", ""),
+    "C11-seed5": ("C11", "C11 quick (tv_quick)", "at once", ""),
+    "C12-seed3": ("C12", "C12 quick (sigrender_quick; genmod_quick)", "at once", ""),
+    "C12-seed4": ("C12", "C12 quick (modstub_quick; genmod_quick)", "at once", ""),
+    "C12-seed5": ("C12", "C12 quick (genmod_quick, replayed as a history in one process)", "after strengthening", "lru_cache keyed by module/qualname strings: needs a module regenerated under the same name in one process; generated-module harness + lru_cache shim"),
+    "C13-seed3": ("C13", "C13 quick (annot_quick)", "after strengthening", "fixtures had no annotated *args/**kwargs"),
+    "C13-seed4": ("C13", "C13 quick (annot_quick)", "after strengthening", "fixtures had no string annotation on a None default"),
+    "C13-seed5": ("C13", "C13 quick (annot_quick)", "after strengthening", "needs a source-annotated generator and a non-trivial rewriter: rewriter bit + fixture"),
+    "C14-seed3": ("C14", "C14 quick (store_order2); also C09 quick (Q3)", "after strengthening", "needs a --limit that bites on raw rows but not on distinct ones and the duplicate row among the first rows"),
+    "C14-seed4": ("C14", "C14 quick (samesig)", "after strengthening", "needs two functions whose traced signatures compare equal and mention a class of the stubbed module"),
+    "C14-seed5": ("C14", "C14 quick (order2q)", "at once", ""),
+    "C16-seed3": ("C16", "C16 quick (confine_quick)", "after strengthening", "needs a function-local `from m import X` of exactly the stub's import"),
+    "C16-seed4": ("C16", "C16 quick (remove_kernel1)", "at once", ""),
+    "C16-seed5": ("C16", "C16 quick (confine_quick)", "after strengthening", "needs a star import of a module whose __all__ does not export the name; oracle now requires every stub import to be somewhere in the result"),
+    "C17-seed3": ("C17", "C17 quick (deffilter_quick)", "after strengthening", "file-level link into the standard library added"),
+    "C17-seed4": ("C17", "C17 quick (deffilter_quick)", "after strengthening", "needs an allow-list entry equal to a component of the working directory"),
+    "C17-seed5": ("C17", "C17 quick (gate, recycled mode)", "after strengthening", "id(code)-keyed memo: needs a dead code object and a new one at its address"),
+    "C18-seed3": ("C18", "C18 quick (sampling_quick)", "at once", ""),
+    "C18-seed4": ("C18", "C18 quick (abandon)", "after strengthening", "id(frame) in the unsampled set: dead frame + aliasing allocator; the new call must take exactly one draw"),
+    "C18-seed5": ("C18", "C18 quick (sampling_quick residue check)", "at once", ""),
+})
+
 
 def main():
     lines = ["# Seeded changes and which checks catch them", "",
